@@ -153,8 +153,8 @@ class Monitor(object):
         self.u = sys.modules['athlib.utils']
         import jsonschema
         self.js = jsonschema
-        attach.monitor(self.u, 'schema_valid', self.on_schema_valid)
-        attach.monitor(self.u, 'valid_against_schema', self.on_valid_against)
+        attach.monitor(self.u, 'schema_valid', self.on_schema_valid, pure=False)      # validator classes all print alike; the fresh-process table decides
+        attach.monitor(self.u, 'valid_against_schema', self.on_valid_against, pure=False)
         self.history = []
         self.net = []
         sys.addaudithook(self.audit)
